@@ -2,7 +2,7 @@
 import importlib
 from . import common as C
 
-PROPS = ["C18", "C17", "C13", "C12", "C11", "C20", "C09", "C07", "C16", "C19", "C03", "C06", "C05", "C04", "C01", "C02", "C10", "C14", "C15"]
+PROPS = ["C18", "C17", "C13", "C12", "C11", "C20", "C09", "C07", "C16", "C19", "C03", "C06", "C05", "C04", "C01", "C02", "C10", "C14", "C15", "C08"]
 
 
 def generate_all():
